@@ -52,7 +52,7 @@ class MirCheck:
         self.out.notes.append(f"MIR of /repo tree {self.tree_hash}: {'cached' if cached else f'regenerated in {secs:.0f}s'}; parse {time.time() - t0 - secs:.1f}s")
         self.queries = []
         self.engines = []
-        self.timeout = 120 if tier == "quick" else 900
+        self.timeout = 300 if tier == "quick" else 1500
         self.errors = []
         self._src_for = {}
         self._meta_engine = None
@@ -123,8 +123,32 @@ class MirCheck:
             r, path = solve.prepare(q.formulas, tag=f"{self.pid}_{q.name}")
             if r is not None:
                 q.result = r
-            else:
-                pending.append((q, path))
+                continue
+            if q.kind in ("prove", "side"):
+                # cheap sound pre-pass: floating-point arithmetic as uninterpreted functions (shared sub-terms stay shared)
+                try:
+                    af, n = solve.abstract_fp(q.formulas)
+                except Exception:
+                    af, n = None, 0
+                if n:
+                    ra, pa = solve.prepare(af, tag=f"{self.pid}_{q.name}_euf", quick_inproc_ms=4000)
+                    if ra is not None and ra["result"] == "unsat":
+                        ra["solver"] = ra["solver"] + " [f64 arithmetic abstracted to uninterpreted functions]"
+                        q.result = ra
+                        continue
+                    if q.meta.get("fp_lemmas"):
+                        try:
+                            al, nl = solve.abstract_fp_with_lemmas(q.formulas)
+                        except Exception:
+                            al, nl = None, 0
+                        if nl:
+                            rl, pl = solve.prepare(al, tag=f"{self.pid}_{q.name}_euf_lemmas", quick_inproc_ms=20000)
+                            if rl is not None and rl["result"] == "unsat":
+                                rl["solver"] = rl["solver"] + f" [f64 arithmetic abstracted + {nl} IEEE monotonicity lemma instances]"
+                                q.result = rl
+                                self.used_fp_lemmas = True
+                                continue
+            pending.append((q, path))
 
         def work(item):
             q, path = item
